@@ -58,6 +58,9 @@ struct UnitToml {
     /// `Option` (for a `Result` or an iterator the rewritten text does not compile => undecided)
     #[serde(default)]
     expand_option_combinators: bool,
+    /// R21 (extended): `X.filter(|p| B)` on an Option -> match (off by default: `filter` is far more common on iterators)
+    #[serde(default)]
+    expand_option_filter: bool,
     /// R26: `cast!(A, M)` is expanded to `A.cast(M).map_err(|e| RactorErr::from(e))`, the body of `macro_rules! cast` in
     /// ractor/src/macros.rs (checked against the file on every run: a different definition => undecided)
     #[serde(default)]
@@ -359,6 +362,7 @@ struct Rewriter<'a> {
     index_store: bool,
     expand_map_or_else: bool,
     expand_option_combinators: bool,
+    expand_option_filter: bool,
     chainmap: Vec<(syn::Expr, syn::Expr)>,
     closure_method_map: BTreeMap<String, String>,
     expand_cast_macro: bool,
@@ -368,6 +372,8 @@ struct Rewriter<'a> {
     escaping_async_blocks_allowed: usize,
     /// R27: sibling methods of the impl under extraction that are neither extracted, nor stand-ins of the prelude: inlined at call sites
     inline_table: BTreeMap<String, syn::ImplItemFn>,
+    /// R27 for free functions of the file: `helper(args)`
+    inline_free: BTreeMap<String, syn::ImplItemFn>,
     inline_depth: usize,
 }
 
@@ -510,6 +516,9 @@ fn match_pat(pat: &syn::Expr, e: &syn::Expr, binds: &mut BTreeMap<String, syn::E
         (syn::Expr::Call(p), syn::Expr::Call(m)) => p.args.len() == m.args.len() && match_pat(&p.func, &m.func, binds)
             && p.args.iter().zip(m.args.iter()).all(|(a, b)| match_pat(a, b, binds)),
         (syn::Expr::Path(p), syn::Expr::Path(m)) => norm_tokens(&p.to_token_stream()) == norm_tokens(&m.to_token_stream()),
+        (syn::Expr::Binary(p), syn::Expr::Binary(m)) => norm_tokens(&p.op.to_token_stream()) == norm_tokens(&m.op.to_token_stream())
+            && match_pat(&p.left, &m.left, binds) && match_pat(&p.right, &m.right, binds),
+        (syn::Expr::Unary(p), syn::Expr::Unary(m)) => norm_tokens(&p.op.to_token_stream()) == norm_tokens(&m.op.to_token_stream()) && match_pat(&p.expr, &m.expr, binds),
         _ => false,
     }
 }
@@ -1122,12 +1131,16 @@ impl<'a> VisitMut for Rewriter<'a> {
             }
         }
         // R27 (associated functions): `Self::helper(args)` / `Type::helper(args)` without a receiver
-        if !self.inline_table.is_empty() && self.inline_depth < 2 {
+        if (!self.inline_table.is_empty() || !self.inline_free.is_empty()) && self.inline_depth < 2 {
             if let syn::Expr::Call(c) = e {
                 if let syn::Expr::Path(fp) = &*c.func {
                     let segs: Vec<String> = fp.path.segments.iter().map(|s| s.ident.to_string()).collect();
-                    if segs.len() == 2 && fp.qself.is_none() {
-                        if let Some(mut h) = self.inline_table.get(&segs[1]).cloned() {
+                    let looked_up = if fp.qself.is_some() { None }
+                        else if segs.len() == 2 { self.inline_table.get(&segs[1]).cloned() }
+                        else if segs.len() == 1 { self.inline_free.get(&segs[0]).cloned() }
+                        else { None };
+                    if looked_up.is_some() {
+                        if let Some(mut h) = looked_up {
                             let no_recv = !matches!(h.sig.inputs.first(), Some(syn::FnArg::Receiver(_)));
                             if let Some(st2) = eliminate_guard_returns(&h.block.stmts) { h.block.stmts = st2; }
                             struct Esc4(bool);
@@ -1209,7 +1222,7 @@ impl<'a> VisitMut for Rewriter<'a> {
         }
         if self.expand_option_combinators {
             if let syn::Expr::MethodCall(m) = e {
-                if (m.method == "and_then" || m.method == "map") && m.args.len() == 1 && m.turbofish.is_none() {
+                if (m.method == "and_then" || m.method == "map" || (m.method == "filter" && self.expand_option_filter)) && m.args.len() == 1 && m.turbofish.is_none() {
                     if let syn::Expr::Closure(c) = &m.args[0] {
                         struct Esc(bool);
                         impl<'ast> syn::visit::Visit<'ast> for Esc {
@@ -1225,6 +1238,9 @@ impl<'a> VisitMut for Rewriter<'a> {
                             let (recv, pat, body) = ((*m.receiver).clone(), pat0, (*c.body).clone());
                             *e = if m.method == "and_then" {
                                 syn::parse_quote!(match (#recv) { Some(#pat) => #body, None => None })
+                            } else if m.method == "filter" {
+                                // `Option::filter(|p| B)`: the predicate sees a reference to the value
+                                syn::parse_quote!(match (#recv) { Some(vx_some) => { let keep = { let #pat = &vx_some; #body }; if keep { Some(vx_some) } else { None } }, None => None })
                             } else {
                                 syn::parse_quote!(match (#recv) { Some(#pat) => Some(#body), None => None })
                             };
@@ -1257,6 +1273,25 @@ impl<'a> VisitMut for Rewriter<'a> {
                     *e = out;
                     self.rules.insert("R22".into());
                     break;
+                }
+            }
+        }
+        // R32: `if let [x] = E.as_slice() { B }` (a one-element slice pattern) is `if E.len() == 1 { let x = &E[0]; B }`
+        if let syn::Expr::If(ifx) = e {
+            if let syn::Expr::Let(l) = &*ifx.cond {
+                if let (syn::Pat::Slice(ps), syn::Expr::MethodCall(mc)) = (&*l.pat, &*l.expr) {
+                    if ps.elems.len() == 1 && mc.method == "as_slice" && mc.args.is_empty() {
+                        if let syn::Pat::Ident(pi) = &ps.elems[0] {
+                            if pi.by_ref.is_none() && pi.mutability.is_none() && pi.subpat.is_none() {
+                                let x = pi.ident.clone();
+                                let recv = (*mc.receiver).clone();
+                                let then_stmts = ifx.then_branch.stmts.clone();
+                                ifx.cond = Box::new(syn::parse_quote!(#recv.len() == 1));
+                                ifx.then_branch = syn::parse_quote!({ let #x = &#recv[0]; #(#then_stmts)* });
+                                self.rules.insert("R32".into());
+                            }
+                        }
+                    }
                 }
             }
         }
@@ -2075,16 +2110,34 @@ fn main() {
             index_store: unit_toml.index_store,
             expand_map_or_else: unit_toml.expand_map_or_else,
             expand_option_combinators: unit_toml.expand_option_combinators,
+            expand_option_filter: unit_toml.expand_option_filter,
             closure_method_map: unit_toml.closure_method_map.clone(),
             expand_cast_macro: unit_toml.expand_cast_macro,
             select_biased,
             eta_expand_in: unit_toml.eta_expand_in.iter().cloned().collect(),
             escaping_async_blocks_allowed: 0,
             inline_table: BTreeMap::new(),
+            inline_free: BTreeMap::new(),
             inline_depth: 0,
             // the most specific (longest) pattern is tried first
             chainmap: { let mut v: Vec<(&String, &String)> = unit_toml.chainmap.iter().collect(); v.sort_by(|a, b| b.0.len().cmp(&a.0.len()).then(a.0.cmp(b.0))); v.into_iter().map(|(k, v)| (parse_chain(k), parse_chain(v))).collect() },
         };
+        // R27 (free functions): module-level functions of this file that the unit neither extracts nor stands in for
+        {
+            let listed_fns: BTreeSet<String> = unit_toml.item.iter().filter_map(|i| i.path.strip_prefix("fn ").map(|x| x.trim().to_string())).collect();
+            let mut seen: BTreeMap<String, usize> = BTreeMap::new();
+            let mut cand: BTreeMap<String, syn::ImplItemFn> = BTreeMap::new();
+            for it in items.iter() {
+                if let syn::Item::Fn(f) = it {
+                    if !cfg.keep(&f.attrs) { continue; }
+                    let n = f.sig.ident.to_string();
+                    *seen.entry(n.clone()).or_insert(0) += 1;
+                    if listed_fns.contains(&n) || prelude_fn_names.contains(&n) { continue; }
+                    cand.insert(n, syn::ImplItemFn { attrs: f.attrs.clone(), vis: f.vis.clone(), defaultness: None, sig: f.sig.clone(), block: (*f.block).clone() });
+                }
+            }
+            for (n, f) in cand { if seen.get(&n) == Some(&1) { rw.inline_free.insert(n, f); } }
+        }
         let extra_attrs: Vec<syn::Attribute> = spec
             .extra_attrs
             .iter()
